@@ -143,6 +143,24 @@ def op_script(chk, rng, cfg, script):
                         fails.append(f"another run checkpointed explicitly (after {op[1]} batches) into a used folder: restored state differs at {dd[:3]}")
                     cal = r
                     saved = None
+                elif op[0] == "NEWL":
+                    # a trial with ANOTHER loss (same model, seed and samplers: the same parameters and the same simulated series, other losses) ran one batch in this
+                    # folder; then the run proper starts there: the folder must hold this run's losses, not the trial's
+                    # (another loss of the same family: the simulation length, hence the series, stays the same)
+                    long_family = str(cfg["loss"]).startswith(("msm", "likelihood", "gsl"))
+                    other_loss = {"minkowski": "minkowski_p1", "minkowski_p1": "minkowski", "msm": "msm_std", "msm_std": "msm"}.get(cfg["loss"], "msm_inv" if long_family else "minkowski_p1")
+                    trial = twin.build(dict(cfg, loss=other_loss), folder)
+                    trial.calibrate(1)
+                    cal = twin.build(dict(cfg), folder)
+                    cal.calibrate(op[1])
+                    saved = deep(cal)
+                    r = Calibrator.restore_from_checkpoint(folder, model=twin.toy_model)
+                    dd = diff(saved, deep(r))
+                    if dd:
+                        fails.append(f"a run of {op[1]} batch(es) started in a folder holding a one-batch trial with the same series and another loss ({other_loss}): "
+                                     f"the checkpoint does not hold the state calibrate() returned with, differs at {dd[:3]}")
+                    cal = r
+                    saved = None
                 elif op[0] == "NEW":
                     # a different run starts in the same folder
                     cfg2 = dict(cfg, seed=cfg["seed"] + 1)
@@ -323,6 +341,9 @@ def run(chk: Check):
             script = [("C", rng.randint(2, 3)), ("NEW", rng.randint(1, 4))]
         if i % 7 == 6:
             script = [("C", rng.randint(1, 3)), ("NEWX", rng.randint(2, 4)), ("C", 1), ("K",), ("R",)]
+        if i % 7 == 5:
+            script = ([("C", rng.randint(1, 2))] if rng.random() < 0.5 else []) + [("NEWL", rng.randint(1, 3)), ("C", 1), ("R",)]
+            cfg.pop("explicit_only", None)
         fails, known = op_script(chk, rng, cfg, script)
         chk.case([cfg, script], any(o[0] == "R" for o in script), {"lineup": [x[0] for x in cfg["lineup"]], "loss": cfg["loss"], "script": script})
         chk.count("script:" + "".join(o[0][0] for o in script)[:6])
